@@ -7,6 +7,8 @@ import (
 	"fmt"
 	"io"
 	"math"
+	"runtime"
+	"runtime/debug"
 	"sort"
 	"strings"
 	"sync/atomic"
@@ -505,6 +507,55 @@ func duplex(in []*types.Packet, cut int, out *types.Packet) (msg string) {
 	return ""
 }
 
+// poolHistory: a stream that dies in the middle of a packet body, then two healthy streams whose receives overlap
+// (A has read part of its body when B receives a whole packet, then A gets the rest). Whatever the first stream left
+// in process-wide state, A and B must read back their own packets.
+func poolHistory(failCut, aCut int) (msg string) {
+	defer func() {
+		if r := recover(); r != nil {
+			msg = fmt.Sprintf("panic: %v", r)
+		}
+	}()
+	frame := func(p *types.Packet) []byte {
+		var w bytes.Buffer
+		if err := util.NewProtoStream(context.Background(), nil, &w).SendMsg(p); err != nil {
+			panic(err)
+		}
+		return w.Bytes()
+	}
+	pa := &types.Packet{Type: types.PACKET_DATA, ID: 1, Data: bytes.Repeat([]byte{0x11}, 1000)}
+	pb := &types.Packet{Type: types.PACKET_DATA, ID: 2, Data: bytes.Repeat([]byte{0x22}, 900)}
+	wa, wb := frame(pa), frame(pb)
+	if failCut > len(wa) {
+		failCut = len(wa)
+	}
+	var dead types.Packet
+	util.NewProtoStream(context.Background(), bytes.NewReader(wa[:failCut]), nil).RecvMsg(&dead) // fails; that is the point
+	var gotB types.Packet
+	var errB error
+	rd := &duplexReader{data: wa, cut: aCut}
+	rd.during = func() {
+		errB = util.NewProtoStream(context.Background(), bytes.NewReader(wb), nil).RecvMsg(&gotB)
+	}
+	var gotA types.Packet
+	if err := util.NewProtoStream(context.Background(), rd, nil).RecvMsg(&gotA); err != nil {
+		return "RecvMsg of stream A: " + err.Error()
+	}
+	if !rd.fired {
+		return ""
+	}
+	if errB != nil {
+		return "RecvMsg of stream B: " + errB.Error()
+	}
+	if !pktEq(&gotA, pa) {
+		return fmt.Sprintf("stream A read back id %d with %d bytes, %d of them not its own", gotA.ID, len(gotA.Data), len(gotA.Data)-bytes.Count(gotA.Data, []byte{0x11}))
+	}
+	if !pktEq(&gotB, pb) {
+		return fmt.Sprintf("stream B read back id %d with %d bytes, not its own packet", gotB.ID, len(gotB.Data))
+	}
+	return ""
+}
+
 func compositionsUpTo(n int, f func(c []int)) {
 	var rec func(rest int, cur []int)
 	rec = func(rest int, cur []int) {
@@ -773,6 +824,24 @@ func runC20(r *evid.Run) {
 		})
 		r.Add("duplex_cases", int64(len(dcs)))
 	}
+	// (e) histories through an error path: on one P with the collector off, so that a pool hands back exactly what
+	// the failed stream left in it
+	{
+		oldP, oldGC := runtime.GOMAXPROCS(1), debug.SetGCPercent(-1)
+		cnt := int64(0)
+		for _, fc := range []int{0, 3, 4, 5, 500, 1006, 1 << 20} {
+			for ac := 0; ac < 1010; ac++ {
+				if m := poolHistory(fc, ac); m != "" {
+					r.Violate("history:"+firstWord(m), fmt.Sprintf("a stream truncated at byte %d, then stream A cut at byte %d while stream B receives: %s", fc, ac, m), c20Case{Kind: "pool-history", Cuts: []int{fc, ac}})
+				}
+				cnt++
+			}
+		}
+		runtime.GOMAXPROCS(oldP)
+		debug.SetGCPercent(oldGC)
+		n.Add(cnt)
+		r.Add("pool_history_cases", cnt)
+	}
 	r.Evaluations.Store(n.Load())
 	r.Sample(map[string]any{"framed_stream": "empty packet, REQ 1, FIN", "fragmentations": "all compositions of its byte length"})
 	for i := 0; i < 3000; i++ {
@@ -825,6 +894,13 @@ func replayC20(raw json.RawMessage) string {
 			return err.Error()
 		}
 		return roundTripPacket(&p)
+	case "pool-history":
+		if len(c.Cuts) != 2 {
+			return "bad case"
+		}
+		defer debug.SetGCPercent(debug.SetGCPercent(-1))
+		defer runtime.GOMAXPROCS(runtime.GOMAXPROCS(1))
+		return poolHistory(c.Cuts[0], c.Cuts[1])
 	case "duplex":
 		var ps []*types.Packet
 		for _, b := range c.Pkts {
